@@ -41,7 +41,7 @@ def r1(ctx):
             c = one(cl, 'selection closure for ' + nm)
             cv = [x for _, x in ret_assigns(c)]
             if nm == 'protocol':
-                ctx.check('handle_connection|protocol|accepted-by-server', cv == ['slice::contains(self.protocols, v)'], 'protocol predicate is %s' % cv, sample=cv)
+                ctx.check('handle_connection|protocol|accepted-by-server', (len(cv) == 1 and re.match(r'^slice::contains\(self\.protocols, \w+\)$', cv[0]) is not None), 'protocol predicate is %s' % cv, sample=cv)
             else:
                 ones = [s for s in c.assigns(lambda pl: pl['l'] != 0 and not pl['p']) if s.kind == 'assign' and written_value(c, s) == '1']
                 ok = cv == ['!({0 | 1})'] and len(ones) == 1 and c.must_pass(ones[0].bb, fact_is(r'.', ['Unknown']))
